@@ -1,7 +1,7 @@
 (* C15/Property.v — ONLY the property theorems (each closed by a lemma of Proofs*.v) + Print Assumptions.
    Models: C15/Model.v (A: NameAuthority / graph histories, B: NameFixPass, C: rename_values). *)
 From Coq Require Import NArith List Bool Lia.
-From IRV Require Import Base.Exn C15.Model C15.ProofsA C15.ProofsA2 C15.ProofsB C15.ProofsB2 C15.ProofsB3 C15.ProofsC C15.ProofsC2 C15.ProofsC3
+From IRV Require Import Base.Exn C15.Model C15.ProofsA C15.ProofsA2 C15.ProofsA3 C15.ProofsB15 C15.ProofsB C15.ProofsB2 C15.ProofsB3 C15.ProofsC C15.ProofsC2 C15.ProofsC3
   C15.ProofsB4 C15.ProofsB5 C15.ProofsB6 C15.ProofsB7 C15.ProofsB8 C15.ProofsB9 C15.ProofsB10 C15.ProofsB11 C15.ProofsB12 C15.ProofsB13 C15.ProofsB14.
 Import ListNotations.
 Open Scope N_scope.
@@ -67,6 +67,44 @@ Proof.
   intros ops g. destruct (grun_total ops g) as [g1 H]. exists g1. split; [exact H|]. apply (grun_auth ops g g1 H).
 Qed.
 Print Assumptions C15_graph_history.
+
+(* The same at graph level without the authority's internals.  The LOG of a history (ProofsA3.grun_log) is every
+   name the graph registered or assigned so far: the names, after the call, of the inputs and initializers given to
+   Graph(...) and of the nodes and node outputs given to a successful append/extend/insert.  For EVERY history from
+   the empty state (renames, removals, re-adds, failing calls included) and every next adding call: a name given to
+   an object that had none is not in the log, and explicit names are kept.  (Names the user sets on objects that
+   are already in the graph are not registered until the object is added again: outside the property's "registered
+   or assigned".) *)
+Theorem C15_graph_fresh_log :
+  forall pre o g lg g1 r,
+  grun_log pre g0 ([], []) = Some (g, lg) -> is_adding o = true -> gstep g o = Some (g1, r) ->
+  (forall v s, g_vname g v = None -> g_vname g1 v = Some s -> ~ In s (fst lg)) /\
+  (forall n s, g_nname g n = None -> g_nname g1 n = Some s -> ~ In s (snd lg)) /\
+  (forall v x, g_vname g v = Some x -> g_vname g1 v = Some x) /\
+  (forall n x, g_nname g n = Some x -> g_nname g1 n = Some x).
+Proof. exact graph_fresh_log. Qed.
+Print Assumptions C15_graph_fresh_log.
+
+(* non-vacuity: every history has a log (no out-of-fuel), e.g. a graph built with an unnamed input and an
+   initializer w, then a node with two unnamed outputs *)
+Example ex_log :
+  (forall ops g lg, exists g1 lg1, grun_log ops g lg = Some (g1, lg1)) /\
+  exists g lg, grun_log [GNewValue 0 (Some [119]); GNewValue 1 None; GCtor [1; 0];
+                         GNewNode 0 None [65] [(2, None); (3, None)] false; GAdd [0]] g0 ([], []) = Some (g, lg) /\
+               map (g_vname g) [0; 1; 2; 3] = [Some [119]; Some (val_name 0); Some (val_name 1); Some (val_name 2)] /\
+               length (fst lg) = 4%nat.
+Proof. split; [exact grun_log_total|]. eexists. eexists. vm_compute. repeat split; reflexivity. Qed.
+
+(* STRONGER READING ("a generated name never equals a name present in the graph", not only names registered
+   BEFORE): refuted on the code as it exists by the constructor - Graph(inputs, initializers) names the unnamed
+   inputs before it registers the initializers' names (and later explicit input names): an unnamed input of a graph
+   built with an initializer explicitly named val_0 is given the name val_0 as well.  Known finding
+   ctor-names-inputs-before-registering-explicit-names; proposed_fixes/C15-ctor-register-explicit-names-first.diff *)
+Theorem C15_ctor_generated_equals_present_refuted :
+  exists g, grun [GNewValue 0 (Some (val_name 0)); GNewValue 1 None; GCtor [1; 0]] g0 = Some g /\
+            g_vname g 1 = Some (val_name 0) /\ g_vname g 0 = Some (val_name 0).
+Proof. eexists. vm_compute. repeat split; reflexivity. Qed.
+Print Assumptions C15_ctor_generated_equals_present_refuted.
 
 (* ===================== (B) NameFixPass (the code after fix 25cf9b5: fresh names avoid every name that
    exists in the graph).  Hypotheses used below:
@@ -166,6 +204,22 @@ Qed.
 Print Assumptions C15_fix_post_unsorted_refuted.
 
 
+(* C15_fix_never_worse: one _fix_graph_names run over ANY graph and ANY scoping (no well_scoped, no closed_run,
+   no WF0 hypothesis; only that this run did not raise): a value whose name the run changes gets a name that no
+   value met by the run carried before; so two values met by the run that carry the same non-empty name afterwards
+   either both kept their (already equal) names or were both renamed (in different scopes).  In particular the
+   duplicate left by the known finding namefix-unsorted-outer-capture existed before the pass. *)
+Theorem C15_fix_never_worse :
+  forall g vx nx vn nn inits m s',
+  fix_graph_names g vx nx vn nn inits m = (s', None) ->
+  (forall v w x, f_vn s' v = Some x -> x <> [] -> f_vn s' v <> vn v ->
+     In w (ev_values (events_graph g)) -> vn w <> Some x) /\
+  (forall v w x, In v (ev_values (events_graph g)) -> In w (ev_values (events_graph g)) ->
+     f_vn s' v = Some x -> f_vn s' w = Some x -> x <> [] ->
+     (f_vn s' v = vn v /\ f_vn s' w = vn w) \/ (f_vn s' v <> vn v /\ f_vn s' w <> vn w)).
+Proof. exact fix_never_worse. Qed.
+Print Assumptions C15_fix_never_worse.
+
 (* C15_fix_keeps_unique, whole pass, values: the graphs of the model meet pairwise disjoint sets of values, the
    value is met by graph g (as graph input/output, node input/output or only through an initializer dictionary)
    and no other value met by g carries its non-empty name: it keeps that name. *)
@@ -232,7 +286,8 @@ Print Assumptions C15_fix_only_names.
    equal to names of other initializers, empty targets, mismatched lengths included:
    either the call raises and the state is unchanged, or every pair is applied, all other names are unchanged,
    the state is well-formed again (initializers keyed by their current names), every graph has the same set of
-   initializer values, and no flag / owning graph changed. *)
+   initializer values, and no flag / owning graph changed (same_but includes r_const: whether a value has a tensor.
+   RInv does not mention it, so PENDING initializers - registered without const_value - are covered; ex_state has one). *)
 Theorem C15_rename_all_or_nothing :
   forall vs ns s, RInv s ->
   forall s' r, rename_values vs ns s = (s', r) ->
